@@ -10,23 +10,30 @@
 //! fresh id from the shared counter like a transport does).
 
 use super::{
-    limits::ConnectionLimitsConfig, peer_state::{PeerState, SecondaryOrDialing}, SupportedTransport,
-    TransportManager, TransportManagerBuilder, TransportManagerEvent,
+    limits::ConnectionLimitsConfig, peer_state::{PeerState, SecondaryOrDialing}, ProtocolContext,
+    SupportedTransport, TransportHandle, TransportManager, TransportManagerBuilder,
+    TransportManagerEvent, TransportManagerHandle,
 };
 use crate::{
-    error::{AddressError, DialError, Error, NegotiationError},
+    codec::ProtocolCodec,
+    error::{AddressError, DialError, Error, ImmediateDialError, NegotiationError},
+    protocol::InnerTransportEvent,
     transport::{Endpoint, Transport, TransportEvent},
-    types::ConnectionId,
+    types::{protocol::ProtocolName, ConnectionId},
     verif::{peer, peer_index, VerifBox},
     PeerId,
 };
 
-use futures::{future::BoxFuture, FutureExt, Stream};
+use futures::{future::BoxFuture, Stream};
 use multiaddr::{Multiaddr, Protocol};
-use tokio::sync::oneshot;
+use tokio::sync::{
+    mpsc::{channel, Receiver, Sender},
+    oneshot,
+};
 
 use std::{
     collections::{HashMap, VecDeque},
+    future::Future,
     net::{Ipv4Addr, Ipv6Addr},
     pin::Pin,
     sync::{atomic::Ordering, Arc, Mutex},
@@ -39,6 +46,13 @@ struct Shared {
     calls: Vec<(String, ConnectionId, Vec<Multiaddr>)>,
     accept_fail: bool,
     accepts: HashMap<ConnectionId, VecDeque<oneshot::Sender<crate::Result<()>>>>,
+    /// set whenever the manager polls the transport, i.e. whenever its `select!` is evaluated
+    polled: bool,
+    /// handle through which an accepted connection reports itself to the installed protocols
+    /// (like `TcpTransport::accept`); only present once `protocols` registered some
+    handle: Option<TransportHandle>,
+    /// peer and endpoint of the connections the transport reported
+    reported: HashMap<ConnectionId, (PeerId, Endpoint)>,
 }
 
 struct Scripted(Arc<Mutex<Shared>>);
@@ -53,6 +67,7 @@ impl Stream for Scripted {
     type Item = TransportEvent;
 
     fn poll_next(self: Pin<&mut Self>, _: &mut Context<'_>) -> Poll<Option<Self::Item>> {
+        self.0.lock().unwrap().polled = true;
         match self.0.lock().unwrap().events.pop_front() {
             Some(event) => Poll::Ready(Some(event)),
             None => Poll::Pending,
@@ -75,7 +90,17 @@ impl Transport for Scripted {
         }
         let (tx, rx) = oneshot::channel();
         shared.accepts.entry(id).or_default().push_back(tx);
-        Ok(Box::pin(async move { rx.await.unwrap_or(Err(Error::EssentialTaskClosed)) }))
+        // as `TcpTransport::accept`: the accept future first tells every installed protocol about
+        // the connection through the real `ProtocolSet`
+        let set = shared.handle.as_ref().map(|handle| handle.protocol_set(id));
+        let info = shared.reported.get(&id).cloned();
+        Ok(Box::pin(async move {
+            rx.await.unwrap_or(Err(Error::EssentialTaskClosed))?;
+            if let (Some(mut set), Some((peer, endpoint))) = (set, info) {
+                set.report_connection_established(peer, endpoint).await?;
+            }
+            Ok(())
+        }))
     }
 
     fn accept_pending(&mut self, id: ConnectionId) -> crate::Result<()> {
@@ -108,22 +133,124 @@ impl Transport for Scripted {
     }
 }
 
+type NextFuture = Pin<Box<dyn Future<Output = Option<TransportEvent>>>>;
+
 pub struct ManagerBox {
+    /// A `TransportManager::next()` future that is suspended INSIDE one of its arms (a blocking
+    /// `send().await` to a protocol whose channel is full). It borrows `manager` (lifetime
+    /// erased): while it is `Some` the manager is only looked at, never called, and it is dropped
+    /// before the manager (field order).
+    next_fut: Option<NextFuture>,
     rt: tokio::runtime::Runtime,
-    manager: Option<TransportManager>,
+    manager: Option<Box<TransportManager>>,
     shared: Arc<Mutex<Shared>>,
     labels: HashMap<String, ConnectionId>,
     names: HashMap<ConnectionId, String>,
+    /// the handle every `TransportService` holds (`TransportService::dial` forwards to it)
+    handle: Option<TransportManagerHandle>,
+    /// protocol channels: the sender the manager holds (clone) and the receiver of the protocol
+    ptx: Vec<Sender<InnerTransportEvent>>,
+    prx: Vec<Receiver<InnerTransportEvent>>,
+    /// automatic labels `q1, q2, ..` for attempts started by queued commands
+    auto: usize,
 }
 
 impl ManagerBox {
     pub fn new() -> Self {
         Self {
+            next_fut: None,
             rt: tokio::runtime::Builder::new_current_thread().enable_all().build().expect("runtime"),
             manager: None,
             shared: Arc::new(Mutex::new(Shared::default())),
             labels: HashMap::new(),
             names: HashMap::new(),
+            handle: None,
+            ptx: Vec::new(),
+            prx: Vec::new(),
+            auto: 0,
+        }
+    }
+
+    /// Drive `TransportManager::next()` until nothing more happens and collect what it returned.
+    ///
+    /// `next()` is not cancel-safe once it is inside an arm (the remaining notifications and the
+    /// event to return live in the future), so a future that is pending inside an arm is kept and
+    /// resumed by the next operation. Whether a pending future sits at its `select!` or inside an
+    /// arm is decided by polling it a second time: at the `select!` every poll polls the
+    /// transport again, inside an arm only the blocked `send()` is polled.
+    fn pump(&mut self) -> Vec<TransportEvent> {
+        let mut events = Vec::new();
+        let waker = futures::task::noop_waker();
+        let mut cx = Context::from_waker(&waker);
+        loop {
+            let mut future = match self.next_fut.take() {
+                Some(future) => future,
+                None => {
+                    let manager: *mut TransportManager = &mut **self.manager.as_mut().expect("limits first");
+                    // SAFETY: the manager is boxed and outlives the future (`next_fut` is cleared
+                    // before the manager is replaced and is declared before it); while the future
+                    // exists the adapter does not call into the manager.
+                    let future: Pin<Box<dyn Future<Output = Option<TransportEvent>> + '_>> =
+                        Box::pin(unsafe { &mut *manager }.next());
+                    unsafe { std::mem::transmute::<_, NextFuture>(future) }
+                }
+            };
+            let mut pending_twice = false;
+            let mut done = false;
+            for round in 0..2 {
+                self.shared.lock().unwrap().polled = false;
+                match future.as_mut().poll(&mut cx) {
+                    Poll::Ready(Some(event)) => {
+                        events.push(event);
+                        break;
+                    }
+                    Poll::Ready(None) => {
+                        done = true;
+                        break;
+                    }
+                    Poll::Pending => pending_twice = round == 1,
+                }
+            }
+            if done {
+                break;
+            }
+            if pending_twice {
+                if !self.shared.lock().unwrap().polled {
+                    self.next_fut = Some(future);
+                }
+                break;
+            }
+        }
+        events
+    }
+
+
+    fn show_inner(&self, event: &InnerTransportEvent) -> String {
+        match event {
+            InnerTransportEvent::ConnectionEstablished { peer, connection, .. } =>
+                format!("est:{}:{}", self.peer_name(peer), self.conn_name(*connection)),
+            InnerTransportEvent::DialFailure { peer, addresses } => {
+                let shown: Vec<String> = addresses.iter().map(|a| self.show_addr(a)).collect();
+                format!(
+                    "df:{}:{}",
+                    self.peer_name(peer),
+                    if shown.is_empty() { "-".to_string() } else { shown.join("|") }
+                )
+            }
+            InnerTransportEvent::ConnectionClosed { .. } => "fill".into(),
+            _ => "other".into(),
+        }
+    }
+
+    fn immediate(result: Result<(), ImmediateDialError>) -> String {
+        match result {
+            Ok(()) => "ok".into(),
+            Err(ImmediateDialError::PeerIdMissing) => "err:nopeerid".into(),
+            Err(ImmediateDialError::TriedToDialSelf) => "err:self".into(),
+            Err(ImmediateDialError::AlreadyConnected) => "err:connected".into(),
+            Err(ImmediateDialError::NoAddressAvailable) => "err:noaddr".into(),
+            Err(ImmediateDialError::TaskClosed) => "err:closed".into(),
+            Err(ImmediateDialError::ChannelClogged) => "err:clogged".into(),
         }
     }
 
@@ -306,20 +433,22 @@ impl ManagerBox {
 
     /// Poll `next()` until it is pending, then print everything observable.
     fn observe(&mut self, result: String, label: Option<&str>) -> String {
-        let mut events = Vec::new();
-        {
-            let manager = self.manager.as_mut().expect("limits first");
-            self.rt.block_on(async {
-                while let Some(Some(event)) = manager.next().now_or_never() {
-                    events.push(event);
-                }
-            });
-        }
+        let events = self.pump();
         let calls: Vec<_> = std::mem::take(&mut self.shared.lock().unwrap().calls);
         // a label given with `as=` names the id of the attempt this operation started
         if let Some(label) = label {
             if let Some((_, id, _)) = calls.iter().find(|(what, _, _)| what == "dial" || what == "open") {
-                self.bind(label, *id);
+                if !self.names.contains_key(id) {
+                    self.bind(label, *id);
+                }
+            }
+        }
+        // attempts started by queued commands (no `as=`) are named q1, q2, .. in order of appearance
+        for (what, id, _) in &calls {
+            if (what == "dial" || what == "open") && !self.names.contains_key(id) {
+                self.auto += 1;
+                let label = format!("q{}", self.auto);
+                self.bind(&label, *id);
             }
         }
         let calls: Vec<String> = calls
@@ -362,7 +491,9 @@ impl ManagerBox {
                 _ => "other".into(),
             })
             .collect();
-        let manager = self.manager.as_ref().expect("limits first");
+        // (reads only; a suspended `next()` future is not running while we look)
+        let manager: &TransportManager =
+            unsafe { &*(&**self.manager.as_ref().expect("limits first") as *const TransportManager) };
         let mut states: Vec<(u64, String)> = manager
             .peers
             .read()
@@ -376,7 +507,7 @@ impl ManagerBox {
         states.sort();
         let states: Vec<String> = states.iter().map(|(i, s)| format!("{i}:{s}")).collect();
         let dash = |v: Vec<String>| if v.is_empty() { "-".to_string() } else { v.join(" ") };
-        format!(
+        let base = format!(
             "{result} ; calls={} ; ev={} ; st={} ; pend={} acc={} lim={}/{} oe={}",
             dash(calls),
             dash(events),
@@ -386,6 +517,17 @@ impl ManagerBox {
             manager.connection_limits.verif_counts().0,
             manager.connection_limits.verif_counts().1,
             manager.opening_errors.len(),
+        );
+        if self.ptx.is_empty() {
+            return base;
+        }
+        let lens: Vec<String> =
+            self.ptx.iter().map(|tx| (tx.max_capacity() - tx.capacity()).to_string()).collect();
+        format!(
+            "{base} ; susp={} cmd={} ch={}",
+            if self.next_fut.is_some() { "y" } else { "-" },
+            manager.cmd_rx.len(),
+            lens.join(","),
         )
     }
 
@@ -427,19 +569,109 @@ impl VerifBox for ManagerBox {
                 .max_incoming_connections(max_in)
                 .max_outgoing_connections(max_out);
             let mut manager =
-                TransportManagerBuilder::new().with_connection_limits_config(config).build();
+                Box::new(TransportManagerBuilder::new().with_connection_limits_config(config).build());
+            self.next_fut = None;
             self.shared = Arc::new(Mutex::new(Shared::default()));
             manager.register_transport(SupportedTransport::Tcp, Box::new(Scripted(self.shared.clone())));
             manager.register_listen_address("/ip4/10.0.0.99/tcp/99".parse().expect("address"));
+            self.handle = Some(manager.transport_manager_handle());
             self.manager = Some(manager);
             self.labels.clear();
             self.names.clear();
+            self.ptx.clear();
+            self.prx.clear();
+            self.auto = 0;
             return "ok".into();
         }
         if self.manager.is_none() {
             return "bad-op".into();
         }
         let label = t.iter().find_map(|a| a.strip_prefix("as="));
+        let proto = |s: &str, n: usize| s.parse::<usize>().ok().filter(|j| *j < n);
+        // --- operations of the installed protocols (possible while the manager is blocked)
+        match t.as_slice() {
+            ["protocols", n, cap] => {
+                let (Ok(n), Some(Ok(cap))) =
+                    (n.parse::<usize>(), cap.strip_prefix("cap=").map(|c| c.parse::<usize>()))
+                else {
+                    return "bad-op".into();
+                };
+                if !self.ptx.is_empty() || self.next_fut.is_some() || n == 0 || n > 3 || cap == 0 || cap > 8 {
+                    return "bad-op".into();
+                }
+                let manager = self.manager.as_mut().unwrap();
+                for j in 0..n {
+                    // as `register_protocol`, with a channel of the requested capacity
+                    let (tx, rx) = channel(cap);
+                    manager.protocols.insert(
+                        ProtocolName::from(format!("/verif/p{j}")),
+                        ProtocolContext::new(
+                            ProtocolCodec::UnsignedVarint(None),
+                            tx.clone(),
+                            Vec::new(),
+                            crate::protocol::SubstreamKeepAlive::Yes,
+                        ),
+                    );
+                    self.ptx.push(tx);
+                    self.prx.push(rx);
+                }
+                // the order in which the manager walks over its protocols (hash-map order)
+                let order: Vec<String> = manager
+                    .protocols
+                    .keys()
+                    .map(|name| name.to_string().trim_start_matches("/verif/p").to_string())
+                    .collect();
+                let handle = manager.transport_handle(Arc::new(crate::executor::DefaultExecutor {}));
+                self.shared.lock().unwrap().handle = Some(handle);
+                return format!("ok order={}", order.join(","));
+            }
+            ["pdial", j, p] => {
+                let (Some(_), Ok(p)) = (proto(j, self.ptx.len()), p.parse::<u64>()) else {
+                    return "bad-op".into();
+                };
+                let who = self.peer_of(p);
+                // what `TransportService::dial` does
+                let result = self.handle.as_ref().unwrap().dial(&who);
+                return self.observe(Self::immediate(result), None);
+            }
+            ["pdialaddr", j, address] => {
+                let (Some(_), Some(address)) = (proto(j, self.ptx.len()), self.parse_addr(address)) else {
+                    return "bad-op".into();
+                };
+                // what `TransportService::dial_address` does
+                let result = self.handle.as_ref().unwrap().dial_address(address);
+                return self.observe(Self::immediate(result), None);
+            }
+            ["pfill", j] => {
+                let Some(j) = proto(j, self.ptx.len()) else { return "bad-op".into() };
+                let mut n = 0;
+                while self.ptx[j]
+                    .try_send(InnerTransportEvent::ConnectionClosed {
+                        peer: peer(99),
+                        connection: ConnectionId::from(9999usize),
+                    })
+                    .is_ok()
+                {
+                    n += 1;
+                }
+                return self.observe(format!("n={n}"), None);
+            }
+            ["pdrain", j] => {
+                let Some(j) = proto(j, self.ptx.len()) else { return "bad-op".into() };
+                let mut got = Vec::new();
+                while let Ok(event) = self.prx[j].try_recv() {
+                    got.push(self.show_inner(&event));
+                }
+                let got = if got.is_empty() { "-".to_string() } else { got.join(",") };
+                return self.observe(format!("got={got}"), None);
+            }
+            _ => {}
+        }
+        // the application cannot call the manager while its `next()` is blocked, and the scripted
+        // environment holds its events back meanwhile
+        if self.next_fut.is_some() {
+            return "busy".into();
+        }
         match t.as_slice() {
             ["addknown", p, addresses] => {
                 let Ok(p) = p.parse::<u64>() else { return "bad-op".into() };
@@ -477,6 +709,7 @@ impl VerifBox for ManagerBox {
                 };
                 self.shared.lock().unwrap().accept_fail = rest.contains(&"acceptfail");
                 let who = self.peer_of(p);
+                self.shared.lock().unwrap().reported.insert(id, (who, endpoint.clone()));
                 self.inject(TransportEvent::ConnectionEstablished { peer: who, endpoint });
                 let out = self.observe("-".into(), None);
                 self.shared.lock().unwrap().accept_fail = false;
@@ -521,6 +754,12 @@ impl VerifBox for ManagerBox {
                 self.observe("-".into(), None)
             }
             ["accepted", conn, how] => {
+                // the connection reports itself to the protocols when their channels have room
+                // (the blocking behaviour of `ProtocolSet::report_connection_established` is not
+                // this adapter's subject)
+                if *how == "ok" && self.ptx.iter().any(|tx| tx.capacity() == 0) {
+                    return "busy".into();
+                }
                 let id = self.conn_of(conn);
                 let sender =
                     self.shared.lock().unwrap().accepts.get_mut(&id).and_then(|queue| queue.pop_front());
